@@ -517,7 +517,19 @@ class Executor:
 
     def at_return(self, state, val, fn):
         self.path_count += 1
+        if self.path_count == 1:
+            # vacuity guard at the first return: the facts assumed on the way (callee contracts, models) must not be contradictory
+            status, *_ = self.solver.check(self.axioms + state.pc, z3.BoolVal(False), timeout_ms=1500, fallback=False)
+            self.obligations.append(Obligation(name=f"{self.contract.prefix}.canary.return", function=self.contract.qualname, status=DISCHARGED if status != "unsat" else VIOLATED, backend="z3", kind="canary",
+                                               formula="a false goal must not be provable at the first return", detail="" if status != "unsat" else "the assumptions collected along the path are contradictory"))
         for name, goal in self.contract.ensures(self, {**state.vars, "__entry__": self.entry, "__state__": state}, val):
+            if name.startswith("canary:"):
+                # the clause must NOT be provable (it states that the definitions used by the specification are contradictory)
+                status, *_ = self.solver.check(self.axioms + state.pc, zbool(goal), timeout_ms=1500, fallback=False)
+                self.counter[name] = self.counter.get(name, 0) + 1
+                self.obligations.append(Obligation(name=f"{self.contract.prefix}.{name.replace(':', '.')}#{self.counter[name]}", function=self.contract.qualname, status=DISCHARGED if status != "unsat" else VIOLATED, backend="z3", kind="canary",
+                                                   formula="the definitions the specification is stated over are satisfiable", detail=""))
+                continue
             self.oblige(state, goal, f"{self.contract.prefix}.post.{name}", f"ensures {name} at return (line {getattr(fn, 'lineno', '?')})")
 
     def at_raise(self, state, exc):
@@ -619,6 +631,12 @@ class Executor:
         if isinstance(node, ast.Pass):
             return [(st, Signal.NORMAL, None)]
         if isinstance(node, (ast.Import, ast.ImportFrom)):
+            # function-level imports bind names exactly like module-level ones (static resolution)
+            from .prims import module_env_from_ast
+
+            for k_, v_ in module_env_from_ast(ast.Module(body=[node], type_ignores=[])).items():
+                if k_ not in st.vars:
+                    st.vars[k_] = v_
             return [(st, Signal.NORMAL, None)]
         if isinstance(node, ast.With):
             # context managers modelled as no-ops (warnings.catch_warnings, np.errstate)
